@@ -219,70 +219,65 @@ mutual
 `fb` is the validity of the fallback position `pos`. -/
 def replaceV (mt : Meta) (assoc : List (Nat × Nat)) : V → Data → Bool → R V
   | .pos pv pk, d, fb =>
-      if !pv then pure (.pos false 0)
-      else if d.posm.contains pk then pure (.pos true pk) else pure (.pos fb (if fb then pk else 0))
-  | .str s, _, _ => pure (.str s)
-  | .int n, _, _ => pure (.int n)
-  | .bool b, _, _ => pure (.bool b)
-  | .nilP t, _, _ => pure (.nilP t)
-  | .nilI i, _, _ => pure (.nilI i)
-  | .nilS e, _, _ => pure (.nilS e)
-  | .iface i pv, d, fb => do
-      let x ← replaceV mt assoc pv d fb
-      if assignable x i then pure (.iface i x)
-      else throw (.err s!"cannot use {x.tyOf} as {i}")
+      if !pv then .ok (.pos false 0)
+      else if d.posm.contains pk then .ok (.pos true pk) else .ok (.pos fb (if fb then pk else 0))
+  | .str s, _, _ => .ok (.str s)
+  | .int n, _, _ => .ok (.int n)
+  | .bool b, _, _ => .ok (.bool b)
+  | .nilP t, _, _ => .ok (.nilP t)
+  | .nilI i, _, _ => .ok (.nilI i)
+  | .nilS e, _, _ => .ok (.nilS e)
+  | .iface i pv, d, fb =>
+      (replaceV mt assoc pv d fb).bind (fun x =>
+        if assignable x i then .ok (.iface i x)
+        else .error (.err s!"cannot use {x.tyOf} as {i}"))
   | .slice e ps, d, fb =>
-      if dotsElem e then do
-        let (items, hasDots) ← replaceSeq mt assoc e ps d fb
-        if hasDots && items.isEmpty then pure (.nilS e) else pure (.slice e items)
-      else do
-        let items ← replaceVs mt assoc ps d fb
-        pure (.slice e items)
+      if dotsElem e then
+        (replaceSeq mt assoc e ps d fb).bind (fun r =>
+          if r.2 && r.1.isEmpty then .ok (.nilS e) else .ok (.slice e r.1))
+      else
+        (replaceVs mt assoc ps d fb).bind (fun items => .ok (.slice e items))
   | .ptr t _ fs, d, fb =>
-      if ignoredPtr t then pure (.nilP t)
+      if ignoredPtr t then .ok (.nilP t)
+      else if t == "pgo.Dots" then .error (.err "cannot generate code for \"...\" outside a list")
       else if t == "ast.Ident" && (mt.look (identName fs)).isSome then
         (match d.lookMv (identName fs) with
-         | some c => pure (copyV fb c)
-         | none => throw (.err s!"could not find value for metavariable {identName fs}"))
+         | some c => .ok (copyV fb c)
+         | none => .error (.err s!"could not find value for metavariable {identName fs}"))
       else match forDotsKeyOf t fs with
         | some k =>
             (match (assocLook assoc k).bind d.lookFor with
-             | some fd => do
-                 let body ← replaceNth mt assoc fs 4 d fb
-                 pure (.ptr fd.ty 0 (fd.fields.set fd.bodyIdx body))
-             | none => throw (.err "match data not found for 'for ...'"))
-        | none => do
-            let fs' ← replaceVs mt assoc fs d fb
-            pure (.ptr t 0 fs')
+             | some fd =>
+                 (replaceNth mt assoc fs 4 d fb).bind (fun body =>
+                   .ok (.ptr fd.ty 0 (fd.fields.set fd.bodyIdx body)))
+             | none => .error (.err "match data not found for 'for ...'"))
+        | none => (replaceVs mt assoc fs d fb).bind (fun fs' => .ok (.ptr t 0 fs'))
 /-- element-wise (struct fields, plain slices) with the `Set` assignability check -/
 def replaceVs (mt : Meta) (assoc : List (Nat × Nat)) : List V → Data → Bool → R (List V)
-  | [], _, _ => pure []
-  | p :: ps, d, fb => do
-      let x ← replaceV mt assoc p d fb
-      if !fits x p then throw (.err s!"cannot use {x.tyOf} as {p.tyOf}")
-      let xs ← replaceVs mt assoc ps d fb
-      pure (x :: xs)
+  | [], _, _ => .ok []
+  | p :: ps, d, fb =>
+      (replaceV mt assoc p d fb).bind (fun x =>
+        if !fits x p then .error (.err s!"cannot use {x.tyOf} as {p.tyOf}")
+        else (replaceVs mt assoc ps d fb).bind (fun xs => .ok (x :: xs)))
 /-- `SliceDotsReplacer` / `SliceReplacer` for the dots-aware element types: returns the
 items and whether the pattern list contained a dots. -/
 def replaceSeq (mt : Meta) (assoc : List (Nat × Nat)) (e : String) :
     List V → Data → Bool → R (List V × Bool)
-  | [], _, _ => pure ([], false)
+  | [], _, _ => .ok ([], false)
   | p :: ps, d, fb =>
       match dotsKeyOf e p with
       | some k =>
-          let found := (assocLook assoc k).bind d.lookDots
-          let run := found.getD []
-          if !runFits e run then throw (.err s!"cannot reproduce elided values in a list of {e}")
-          else do
-            let (rest, _) ← replaceSeq mt assoc e ps d found.isSome
-            pure (run ++ rest, true)
-      | none => do
-          let x ← replaceV mt assoc p d fb
-          if !fits x p then throw (.err s!"cannot use {x.tyOf} as {p.tyOf}")
-          let (rest, hd) ← replaceSeq mt assoc e ps d fb
-          pure (x :: rest, hd)
+          if !runFits e (((assocLook assoc k).bind d.lookDots).getD []) then
+            .error (.err s!"cannot reproduce elided values in a list of {e}")
+          else
+            (replaceSeq mt assoc e ps d ((assocLook assoc k).bind d.lookDots).isSome).bind (fun r =>
+              .ok ((((assocLook assoc k).bind d.lookDots).getD []) ++ r.1, true))
+      | none =>
+          (replaceV mt assoc p d fb).bind (fun x =>
+            if !fits x p then .error (.err s!"cannot use {x.tyOf} as {p.tyOf}")
+            else (replaceSeq mt assoc e ps d fb).bind (fun r => .ok (x :: r.1, r.2)))
 def replaceNth (mt : Meta) (assoc : List (Nat × Nat)) : List V → Nat → Data → Bool → R V
-  | [], _, _, _ => throw (.panic "no such field")
+  | [], _, _, _ => .error (.err "no such field")
   | p :: _, 0, d, fb => replaceV mt assoc p d fb
   | _ :: ps, i+1, d, fb => replaceNth mt assoc ps i d fb
 end
